@@ -577,6 +577,108 @@ def run(ck, n, randsz_p, extra=None):
             ck.sample(s)
 
 
+def nested_scalar_foreach(ck, n_cases):
+    """A list of objects each of which owns a scalar list of its own length, constrained by a foreach nested in a foreach over
+    the objects (inner list reached through the outer iterator or through the outer index); between calls the user appends
+    objects and grows inner lists.  Reference semantics evaluated here on the lists as they are after each call: the body
+    holds for every outer index i and every inner index j of *that* object's list, the lengths are the user's."""
+    import solvelib as S
+    S.install()
+    import vsc
+    from vsc.model.rand_state import RandState
+    rng = random.Random("C04/nested-scalar/%d" % ck.seed)
+    OPS = {"eq": lambda a, b: a == b, "lt": lambda a, b: a < b, "ge": lambda a, b: a >= b, "ne": lambda a, b: a != b}
+    for cno in range(n_cases):
+        k1, k2, c1 = rng.randint(0, 3), rng.randint(0, 3), rng.randint(1, 9)
+        op = rng.choice(sorted(OPS))
+        via_it = rng.random() < 0.5          # p.data  vs  self.pkts[i].data
+        inner_it = rng.random() < 0.4        # element iterator vs index on the inner list
+        c0 = rng.randint(0, 5)
+
+        @vsc.randobj
+        class Packet:
+            def __init__(self, n):
+                self.tag = vsc.rand_uint8_t()
+                self.data = vsc.rand_list_t(vsc.uint8_t(), n)
+
+        @vsc.randobj
+        class Burst:
+            def __init__(self, sizes):
+                self.pkts = vsc.rand_list_t(Packet(0))
+                for n in sizes:
+                    self.pkts.append(Packet(n))
+
+            @vsc.constraint
+            def c(self):
+                with vsc.foreach(self.pkts, idx=True, it=True) as (i, p):
+                    p.tag == i + c0
+                    # (every mention of the list builds a fresh expression: the facade consumes them)
+                    lst = (lambda: p.data) if via_it else (lambda: self.pkts[i].data)
+                    if inner_it:
+                        with vsc.foreach(lst()) as e:
+                            cmp_(op, e, i * k1 + c1)
+                    else:
+                        with vsc.foreach(lst(), idx=True) as j:
+                            cmp_(op, lst()[j], i * k1 + j * k2 + c1)
+
+        def cmp_(o, a, b):
+            if o == "eq":
+                a == b
+            elif o == "lt":
+                a < b
+            elif o == "ge":
+                a >= b
+            else:
+                a != b
+        sizes = [rng.randint(0, 4) for _ in range(rng.randint(1, 4))]
+        hist = [["new", list(sizes)]]
+        try:
+            with common.quiet():
+                b = Burst(sizes)
+            for call in range(rng.randint(1, 3)):
+                sd = rng.randrange(1 << 30)
+                hist.append(["randomize", sd])
+                b.set_randstate(RandState.mkFromSeed(sd))
+                with common.quiet():
+                    b.randomize()
+                ck.count("eval_nested_scalar_calls")
+                bad = []
+                if len(b.pkts) != len(sizes):
+                    bad.append("outer list has %d elements, the user put %d" % (len(b.pkts), len(sizes)))
+                for i, p in enumerate(b.pkts):
+                    vals = [int(v) for v in p.data]
+                    if i < len(sizes) and len(vals) != sizes[i]:
+                        bad.append("pkts[%d].data has %d elements, the user put %d" % (i, len(vals), sizes[i]))
+                    if int(p.tag) != i + c0:
+                        bad.append("pkts[%d].tag = %d, body requires %d" % (i, int(p.tag), i + c0))
+                    for j, v in enumerate(vals):
+                        rhs = i * k1 + c1 + (0 if inner_it else j * k2)
+                        if not OPS[op](v, rhs):
+                            bad.append("pkts[%d].data[%d] = %d, body requires %s %d" % (i, j, v, op, rhs))
+                if bad:
+                    ck.oracle_fail("nested-foreach-body-not-over-every-element",
+                                   {"history": hist, "body": {"op": op, "k1": k1, "k2": k2, "c1": c1, "c0": c0, "through_iterator": via_it,
+                                                              "inner_iterator": inner_it}}, bad[:6],
+                                   "the body holds for every index of the outer list and every element of that object's own list")
+                    break
+                if rng.random() < 0.6:
+                    n = rng.randint(0, 4)
+                    with common.quiet():
+                        b.pkts.append(Packet(n))
+                    sizes.append(n)
+                    hist.append(["append Packet", n])
+                if rng.random() < 0.4:
+                    k = rng.randrange(len(sizes))
+                    with common.quiet():
+                        b.pkts[k].data.append(0)
+                    sizes[k] += 1
+                    hist.append(["pkts[%d].data.append" % k])
+        except Exception as e:
+            ck.oracle_fail("nested-foreach:exception:%s" % type(e).__name__, {"history": hist}, str(e)[:300],
+                           "a normal return (the body is satisfiable for these lists)")
+    ck.sample({"kind": "nested foreach over per-object scalar lists", "cases": n_cases})
+
+
 def main():
     tier, seed, replay = common.parse_args(sys.argv[1:])
     ck = common.Check("C04", tier, seed, ["C04"])
@@ -589,6 +691,7 @@ def main():
     else:
         run_witnesses(ck)
         object_list_facade(ck, 400 if tier == "thorough" else 40)
+        nested_scalar_foreach(ck, 150 if tier == "thorough" else 12)
         n = 8000 if tier == "thorough" else 240
         run(ck, n, float(os.environ.get("C04_RANDSZ", "0.25")))
     # failing-input search: model and implementation disagree but no run contradicts the property — re-run the
